@@ -290,4 +290,484 @@ theorem mdLaws : Laws mdMod where
     | url t => exact ⟨mdUrldecodeA_ok h hv hp, (mdUrldecodeA_holds h hv.linked).2.2⟩
   destroy_holds := fun st s o _ h => mdFreeA_holds h
 
+
+/-- hashtab (chain); `copy` is the resize idiom: on success the old chain is destroyed and
+    replaced by the copy, on failure the old chain stays -/
+inductive HtOp where
+  | put (k v : Nat)
+  | del (k : Nat)
+  | copy (newsize : Nat)
+
+def htStep (op : HtOp) (h : HT) (s : AS) : (Bool × HT) × AS :=
+  match op with
+  | .put k v => (((htPutA h k v s).1.1.isSome, (htPutA h k v s).1.2), (htPutA h k v s).2)
+  | .del k => ((true, htDelete k h), s)
+  | .copy n =>
+    match htCopyA h n s with
+    | (none, s1) => ((false, h), s1)
+    | (some h2, s1) => ((true, h2), htDestroyA h s1)
+
+def htMod (size : Nat) : Mod where
+  St := HT
+  Op := HtOp
+  create := fun s => match htCreateA size s with
+    | (none, s1) => (none, s1)
+    | (some seg, s1) => (some [seg], s1)
+  step := htStep
+  destroy := htDestroyA
+  owned := HT.owned
+  ok := fun _ => True
+  pre := fun _ _ => True
+  atomic := fun _ => true
+
+theorem htLaws (size : Nat) : Laws (htMod size) where
+  create_none := by
+    intro s s' h o ho
+    simp only [htMod] at h
+    split at h
+    · next s1 e => cases h; exact ho.of_live_eq (htCreateA_none e)
+    · cases h
+  create_some := by
+    intro s s' st h
+    simp only [htMod] at h
+    split at h
+    · cases h
+    · next seg s1 e =>
+      cases h
+      refine ⟨trivial, fun o ho => ?_⟩
+      intro a
+      rw [(htCreateA_some e).1]
+      simp only [htMod, HT.owned, List.map_cons, List.map_nil, List.count_cons, List.count_append,
+        List.count_nil, ho a]
+      omega
+  step_fail := by
+    intro op st s st' s' _ h
+    cases op with
+    | put k v =>
+      simp only [htMod, htStep] at h
+      generalize hq : htPutA st k v s = q at h
+      obtain ⟨⟨r, h'⟩, s1⟩ := q
+      injection h with h1 hs
+      injection h1 with hr ht
+      subst ht; subst hs
+      cases r with
+      | some e => simp at hr
+      | none => exact ⟨(htPutA_null hq).1, fun o ho => ho.of_live_eq (htPutA_null hq).2⟩
+    | del k =>
+      simp only [htMod, htStep] at h
+      injection h with h1 hs
+      injection h1 with hr ht
+      cases hr
+    | copy n =>
+      simp only [htMod, htStep] at h
+      split at h
+      · next s1 e => cases h; exact ⟨rfl, htCopyA_none e⟩
+      · cases h
+  step_holds := by
+    intro op st s r st' s' _ _ h
+    refine ⟨trivial, ?_⟩
+    cases op with
+    | put k v =>
+      simp only [htMod, htStep] at h
+      generalize hq : htPutA st k v s = q at h
+      obtain ⟨⟨r2, h'⟩, s1⟩ := q
+      injection h with h1 hs
+      injection h1 with hr ht
+      subst ht; subst hs
+      cases r2 with
+      | none =>
+        obtain ⟨e1, e2⟩ := htPutA_null hq
+        rw [e1]; exact fun o ho => ho.of_live_eq e2
+      | some x => exact htPutA_some hq
+    | del k =>
+      simp only [htMod, htStep] at h
+      injection h with h1 hs
+      injection h1 with hr ht
+      subst ht; subst hs
+      intro o ho
+      have e : (htDelete k st).owned = HT.owned st := htDelete_owned k st
+      exact (e ▸ ho : Holds s ((htDelete k st).owned ++ o))
+    | copy n =>
+      simp only [htMod, htStep] at h
+      split at h
+      · next s1 e => cases h; exact fun o ho => htCopyA_none e _ ho
+      · next h2 s1 e =>
+        cases h
+        intro o ho
+        have h1 := htCopyA_some e _ ho
+        apply htDestroyA_holds
+        apply h1.congr
+        simp only [htMod]; perm_blocks
+  destroy_holds := fun st s o _ h => htDestroyA_holds h
+
+/-- heap -/
+inductive HpOp where
+  | push (x : Nat)
+  | reserve (n : Nat)
+  | pop
+
+def hpStep (op : HpOp) (h : HP) (s : AS) : (Bool × HP) × AS :=
+  match op with
+  | .push x => hpPushA h x s
+  | .reserve n => hpReserveA h n s
+  | .pop => (((hpPop h).1.isSome, (hpPop h).2), s)
+
+def hpMod : Mod where
+  St := HP
+  Op := HpOp
+  create := hpCreateA
+  step := hpStep
+  destroy := hpDestroyA
+  owned := HP.owned
+  ok := fun _ => True
+  pre := fun _ _ => True
+  atomic := fun op => match op with | .pop => false | _ => true
+
+theorem hpLaws : Laws hpMod where
+  create_none := fun s s' h o ho => ho.of_live_eq (hpCreateA_none h)
+  create_some := fun s s' st h => ⟨trivial, (hpCreateA_some h).2.2⟩
+  step_fail := by
+    intro op st s st' s' ha h
+    cases op with
+    | push x => exact ⟨(hpPushA_false h).1, fun o ho => ho.of_live_eq (hpPushA_false h).2⟩
+    | reserve n => exact ⟨(hpReserveA_false h).1, fun o ho => ho.of_live_eq (hpReserveA_false h).2⟩
+    | pop => simp [hpMod] at ha
+  step_holds := by
+    intro op st s r st' s' _ _ h
+    refine ⟨trivial, ?_⟩
+    cases op with
+    | push x =>
+      cases r with
+      | false =>
+        obtain ⟨e1, e2⟩ := hpPushA_false h
+        rw [e1]; exact fun o ho => ho.of_live_eq e2
+      | true => exact (hpPushA_true h).2.2
+    | reserve n =>
+      cases r with
+      | false =>
+        obtain ⟨e1, e2⟩ := hpReserveA_false h
+        rw [e1]; exact fun o ho => ho.of_live_eq e2
+      | true => exact (hpReserveA_true h).2.2.2
+    | pop =>
+      simp only [hpMod, hpStep] at h
+      injection h with h1 hs
+      injection h1 with hr ht
+      subst ht; subst hs
+      intro o ho
+      have e : (hpPop st).2.owned = HP.owned st := hpPop_owned st
+      exact (e ▸ ho : Holds s ((hpPop st).2.owned ++ o))
+  destroy_holds := fun st s o _ h => hpDestroyA_holds h
+
+/-- strlist; `pop` includes the caller releasing the string it was handed -/
+inductive SlOp where
+  | app (v : Option (List UInt8))
+  | pop
+
+def slStep (op : SlOp) (l : SL) (s : AS) : (Bool × SL) × AS :=
+  match op with
+  | .app v => slAppendA l v s
+  | .pop => (((slPopA l s).1.1.isSome, (slPopA l s).1.2), (slPopA l s).2)
+
+def slMod : Mod where
+  St := SL
+  Op := SlOp
+  create := slNewA
+  step := slStep
+  destroy := slFreeA
+  owned := SL.owned
+  ok := fun _ => True
+  pre := fun _ _ => True
+  atomic := fun op => match op with | .pop => false | _ => true
+
+theorem slLaws : Laws slMod where
+  create_none := fun s s' h o ho => ho.of_live_eq (slNewA_none h)
+  create_some := fun s s' st h => ⟨trivial, (slNewA_some h).2⟩
+  step_fail := by
+    intro op st s st' s' ha h
+    cases op with
+    | app v => exact ⟨(slAppendA_false h).1, fun o ho => ho.of_live_eq (slAppendA_false h).2⟩
+    | pop => simp [slMod] at ha
+  step_holds := by
+    intro op st s r st' s' _ _ h
+    refine ⟨trivial, ?_⟩
+    cases op with
+    | app v =>
+      cases r with
+      | false =>
+        obtain ⟨e1, e2⟩ := slAppendA_false h
+        rw [e1]; exact fun o ho => ho.of_live_eq e2
+      | true => exact (slAppendA_true h).2.2
+    | pop =>
+      simp only [slMod, slStep] at h
+      generalize hq : slPopA st s = q at h
+      obtain ⟨⟨r2, l'⟩, s1⟩ := q
+      injection h with h1 hs
+      injection h1 with hr ht
+      subst ht; subst hs
+      exact (slPopA_holds hq).2.2
+  destroy_holds := fun st s o _ h => slFreeA_holds h
+
+/-- dynamic mbuf -/
+def mbMod : Mod where
+  St := MB
+  Op := List UInt8
+  create := fun s => (some {}, s)
+  step := fun b m s => mbWriteA m b s
+  destroy := mbFreeA
+  owned := MB.owned
+  ok := fun _ => True
+  pre := fun _ _ => True
+  atomic := fun _ => true
+
+theorem mbLaws : Laws mbMod where
+  create_none := by intro s s' h; simp [mbMod] at h
+  create_some := by
+    intro s s' st h
+    simp only [mbMod] at h
+    injection h with h1 h2
+    injection h1 with h3
+    subst h3; subst h2
+    exact ⟨trivial, fun o ho => by simpa [mbMod, MB.owned] using ho⟩
+  step_fail := fun op st s st' s' _ h =>
+    ⟨(mbWriteA_false h).1, fun o ho => ho.of_live_eq (mbWriteA_false h).2⟩
+  step_holds := by
+    intro op st s r st' s' _ _ h
+    refine ⟨trivial, ?_⟩
+    cases r with
+    | false =>
+      obtain ⟨e1, e2⟩ := mbWriteA_false h
+      rw [e1]; exact fun o ho => ho.of_live_eq e2
+    | true => exact (mbWriteA_true h).2
+  destroy_holds := fun st s o _ h => mbFreeA_holds h
+
+/-- slab -/
+inductive SbOp where
+  | alloc
+  | free
+
+def sbMod (objSize : Nat) : Mod where
+  St := SB
+  Op := SbOp
+  create := sbCreateA objSize
+  step := fun op b s => match op with
+    | .alloc => sbAllocA b s
+    | .free => ((true, sbFree b), s)
+  destroy := sbDestroyA
+  owned := SB.owned
+  ok := fun _ => True
+  pre := fun _ _ => True
+  atomic := fun _ => true
+
+theorem sbLaws (objSize : Nat) : Laws (sbMod objSize) where
+  create_none := fun s s' h o ho => ho.of_live_eq (sbCreateA_none h)
+  create_some := fun s s' st h => ⟨trivial, (sbCreateA_some h).2.2⟩
+  step_fail := by
+    intro op st s st' s' _ h
+    cases op with
+    | alloc => exact ⟨(sbAllocA_false h).1, fun o ho => ho.of_live_eq (sbAllocA_false h).2⟩
+    | free =>
+      simp only [sbMod] at h
+      injection h with h1 hs
+      injection h1 with hr ht
+      cases hr
+  step_holds := by
+    intro op st s r st' s' _ _ h
+    refine ⟨trivial, ?_⟩
+    cases op with
+    | alloc => exact sbAllocA_holds h
+    | free =>
+      simp only [sbMod] at h
+      injection h with h1 hs
+      injection h1 with hr ht
+      subst ht; subst hs
+      exact fun o ho => by simpa [sbMod, sbFree, SB.owned] using ho
+  destroy_holds := fun st s o _ h => sbDestroyA_holds h
+
+/-- cx tree allocator: blocks in the top tree, sub-trees with their blocks -/
+inductive CtOp where
+  | alloc                         -- cx_alloc(tree)
+  | allocSub (sid : Id)           -- cx_alloc(sub-tree)
+  | realloc (blk : Id)            -- cx_realloc(tree, blk)
+  | free (blk : Id)               -- cx_free(tree, blk)
+  | newSub                        -- cx_new_tree(tree)
+  | destroySub (sid : Id)         -- cx_destroy(sub-tree)
+
+def ctStep (op : CtOp) (t : CT) (s : AS) : (Bool × CT) × AS :=
+  match op with
+  | .alloc => (((ctAllocA t none s).1.1.isSome, (ctAllocA t none s).1.2), (ctAllocA t none s).2)
+  | .allocSub sid =>
+    (((ctAllocA t (some sid) s).1.1.isSome, (ctAllocA t (some sid) s).1.2), (ctAllocA t (some sid) s).2)
+  | .realloc blk =>
+    (((ctReallocA t none blk s).1.1.isSome, (ctReallocA t none blk s).1.2), (ctReallocA t none blk s).2)
+  | .free blk => ((true, (ctFreeA t none blk s).1), (ctFreeA t none blk s).2)
+  | .newSub => (((ctNewSubA t s).1.1.isSome, (ctNewSubA t s).1.2), (ctNewSubA t s).2)
+  | .destroySub sid => ((true, (ctDestroySubA t sid s).1), (ctDestroySubA t sid s).2)
+
+def ctMod : Mod where
+  St := CT
+  Op := CtOp
+  create := ctNewA
+  step := ctStep
+  destroy := ctDestroyA
+  owned := CT.owned
+  ok := fun _ => True
+  pre := fun t op => match op with
+    | .allocSub sid => (t.subs.find? (·.1 == sid)).isSome
+    | .realloc blk => blk ∈ t.items
+    | .free blk => blk ∈ t.items
+    | _ => True
+  atomic := fun _ => true
+
+theorem ctLaws : Laws ctMod where
+  create_none := fun s s' h o ho => ho.of_live_eq (ctNewA_none h)
+  create_some := fun s s' st h => ⟨trivial, (ctNewA_some h).2.2⟩
+  step_fail := by
+    intro op st s st' s' _ h
+    cases op with
+    | alloc =>
+      simp only [ctMod, ctStep] at h
+      generalize hq : ctAllocA st none s = q at h
+      obtain ⟨⟨r, t'⟩, s1⟩ := q
+      injection h with h1 hs
+      injection h1 with hr ht
+      subst ht; subst hs
+      cases r with
+      | some e => simp at hr
+      | none => exact ⟨(ctAllocA_none hq).1, fun o ho => ho.of_live_eq (ctAllocA_none hq).2⟩
+    | allocSub sid =>
+      simp only [ctMod, ctStep] at h
+      generalize hq : ctAllocA st (some sid) s = q at h
+      obtain ⟨⟨r, t'⟩, s1⟩ := q
+      injection h with h1 hs
+      injection h1 with hr ht
+      subst ht; subst hs
+      cases r with
+      | some e => simp at hr
+      | none => exact ⟨(ctAllocA_none hq).1, fun o ho => ho.of_live_eq (ctAllocA_none hq).2⟩
+    | realloc blk =>
+      simp only [ctMod, ctStep] at h
+      generalize hq : ctReallocA st none blk s = q at h
+      obtain ⟨⟨r, t'⟩, s1⟩ := q
+      injection h with h1 hs
+      injection h1 with hr ht
+      subst ht; subst hs
+      cases r with
+      | some e => simp at hr
+      | none => exact ⟨(ctReallocA_none hq).1, fun o ho => ho.of_live_eq (ctReallocA_none hq).2⟩
+    | free blk =>
+      simp only [ctMod, ctStep] at h
+      injection h with h1 hs
+      injection h1 with hr ht
+      cases hr
+    | newSub =>
+      simp only [ctMod, ctStep] at h
+      generalize hq : ctNewSubA st s = q at h
+      obtain ⟨⟨r, t'⟩, s1⟩ := q
+      injection h with h1 hs
+      injection h1 with hr ht
+      subst ht; subst hs
+      cases r with
+      | some e => simp at hr
+      | none => exact ⟨(ctNewSubA_none hq).1, fun o ho => ho.of_live_eq (ctNewSubA_none hq).2⟩
+    | destroySub sid =>
+      simp only [ctMod, ctStep] at h
+      injection h with h1 hs
+      injection h1 with hr ht
+      cases hr
+  step_holds := by
+    intro op st s r st' s' _ hp h
+    refine ⟨trivial, ?_⟩
+    cases op with
+    | alloc =>
+      simp only [ctMod, ctStep] at h
+      generalize hq : ctAllocA st none s = q at h
+      obtain ⟨⟨r2, t'⟩, s1⟩ := q
+      injection h with h1 hs
+      injection h1 with hr ht
+      subst ht; subst hs
+      cases r2 with
+      | none =>
+        obtain ⟨e1, e2⟩ := ctAllocA_none hq
+        rw [e1]; exact fun o ho => ho.of_live_eq e2
+      | some b => exact ctAllocA_some hq (by intro sid hs; cases hs)
+    | allocSub sid =>
+      simp only [ctMod, ctStep] at h
+      generalize hq : ctAllocA st (some sid) s = q at h
+      obtain ⟨⟨r2, t'⟩, s1⟩ := q
+      injection h with h1 hs
+      injection h1 with hr ht
+      subst ht; subst hs
+      cases r2 with
+      | none =>
+        obtain ⟨e1, e2⟩ := ctAllocA_none hq
+        rw [e1]; exact fun o ho => ho.of_live_eq e2
+      | some b => exact ctAllocA_some hq (by intro sid' hs; cases hs; exact hp)
+    | realloc blk =>
+      simp only [ctMod, ctStep] at h
+      generalize hq : ctReallocA st none blk s = q at h
+      obtain ⟨⟨r2, t'⟩, s1⟩ := q
+      injection h with h1 hs
+      injection h1 with hr ht
+      subst ht; subst hs
+      cases r2 with
+      | none =>
+        obtain ⟨e1, e2⟩ := ctReallocA_none hq
+        rw [e1]; exact fun o ho => ho.of_live_eq e2
+      | some b => exact ctReallocA_some_top hq hp
+    | free blk =>
+      simp only [ctMod, ctStep] at h
+      injection h with h1 hs
+      injection h1 with hr ht
+      subst ht; subst hs
+      exact ctFreeA_top_holds hp
+    | newSub =>
+      simp only [ctMod, ctStep] at h
+      generalize hq : ctNewSubA st s = q at h
+      obtain ⟨⟨r2, t'⟩, s1⟩ := q
+      injection h with h1 hs
+      injection h1 with hr ht
+      subst ht; subst hs
+      cases r2 with
+      | none =>
+        obtain ⟨e1, e2⟩ := ctNewSubA_none hq
+        rw [e1]; exact fun o ho => ho.of_live_eq e2
+      | some b => exact (ctNewSubA_some hq).2
+    | destroySub sid =>
+      simp only [ctMod, ctStep] at h
+      injection h with h1 hs
+      injection h1 with hr ht
+      subst ht; subst hs
+      exact ctDestroySubA_holds
+  destroy_holds := fun st s o _ h => ctDestroyA_holds h
+
+/-- HMAC context: creation and release only (the digest computation does not allocate) -/
+def hmMod : Mod where
+  St := HM
+  Op := Unit
+  create := hmNewA
+  step := fun _ h s => ((true, h), s)
+  destroy := hmFreeA
+  owned := HM.owned
+  ok := fun _ => True
+  pre := fun _ _ => True
+  atomic := fun _ => true
+
+theorem hmLaws : Laws hmMod where
+  create_none := fun s s' h o ho => ho.of_live_eq (hmNewA_none h)
+  create_some := fun s s' st h => ⟨trivial, hmNewA_some h⟩
+  step_fail := by
+    intro op st s st' s' _ h
+    simp only [hmMod] at h
+    injection h with h1 hs
+    injection h1 with hr ht
+    cases hr
+  step_holds := by
+    intro op st s r st' s' _ _ h
+    simp only [hmMod] at h
+    injection h with h1 hs
+    injection h1 with hr ht
+    subst ht; subst hs
+    exact ⟨trivial, fun o ho => ho⟩
+  destroy_holds := fun st s o _ h => hmFreeA_holds h
+
 end Usual.C10
